@@ -1,4 +1,5 @@
 import GateryModel.C15.Spec
+import GateryModel.C15.Gray
 /-!
 Driver for C15: reads the harness protocol (harness/c15.cpp) on stdin.
 
@@ -31,6 +32,8 @@ structure Case where
   st : State String := init { k := 0, lw := 1, lr := 1 } "x"
   q : QState String := {}
   modelOk : Bool := true      -- false after the first DIFF of the case
+  dual : Bool := false
+  gray : Bool := false        -- case ties grayEncode/grayDecode at width `w`
   stream : Bool := false      -- case drives strm::fifo (ready/valid wrapper)
   fall : Bool := false
   specOk : Bool := true       -- false after the first PROPFAIL event of the case (the abstract queue is then out of step)
@@ -55,7 +58,7 @@ def field (toks : List String) (key : String) : Option String :=
 def parseLat (s : String) : Option LatReq :=
   if s == "D" then some .dontCare
   else
-    let n := (s.drop 1).toString.toNat!
+    let n := (s.drop 1).toString.toNat?.getD 0
     if s.startsWith "S" then some (.specific n)
     else if s.startsWith "L" then some (.atLeast n)
     else if s.startsWith "M" then some (.atMost n)
@@ -76,6 +79,8 @@ def startCase (d : D) (toks : List String) (lineNo : Nat) : IO D := do
   let lat := (parseLat (get "lat")).getD .dontCare
   let model := mkCfg minD dual lat
   let mut d := { d with cases := d.cases + 1 }
+  if field toks "mode" == some "gray" then
+    return { d with hist := (d.hist.bump "gray").bump s!"gray_w{w}", cs := { id := id, w := w, active := true, gray := true, line0 := lineNo } }
   if field toks "mode" == some "stream" then
     d := { d with hist := (d.hist.bump "stream").bump s!"stream_lat_{get "lat"}" }
     match field toks "err", mkCfg minD false (streamInnerLat lat) with
@@ -107,7 +112,7 @@ def startCase (d : D) (toks : List String) (lineNo : Nat) : IO D := do
       d := { d with diffs := d.diffs + 1 }; ok := false
     d := { d with hist := (d.hist.bump s!"k{implCfg.k}").bump s!"lw{implCfg.lw}" }
     let x := String.ofList (List.replicate w 'x')
-    return { d with cs := { id := id, cfg := implCfg, w := w, st := init implCfg x, q := {}, modelOk := ok, active := true, line0 := lineNo } }
+    return { d with cs := { id := id, cfg := implCfg, w := w, st := init implCfg x, q := {}, modelOk := ok, active := true, dual := dual, line0 := lineNo } }
 
 def showOut (c : Cfg) (o : Out String) : String :=
   s!"{bs o.full} {bs o.pushValid} {bs o.af} {bitsOf o.pushSize (c.k+1)} | {bs o.empty} {bs o.popValid} {bs o.ae} {bitsOf o.popSize (c.k+1)} {o.peek}"
@@ -141,7 +146,7 @@ def doEvent (d : D) (toks : List String) (lineNo : Nat) : IO D := do
     let fillBefore := cs.q.queue.length
     let (viol, q') := if cs.specOk then qcheck c.N c.M c.lw cs.q e oi else ([], cs.q)
     for v in viol do
-      IO.println s!"PROPFAIL case={cs.id} line={lineNo} event={cs.events} kind={v} fill={fillBefore} N={c.N} lw={c.lw} ev=[{" ".intercalate toks}]"
+      IO.println s!"PROPFAIL case={cs.id} line={lineNo} event={cs.events} kind={v} dual={if cs.dual then 1 else 0} fill={fillBefore} N={c.N} lw={c.lw} ev=[{" ".intercalate toks}]"
       d := { d with propfails := d.propfails + 1 }
     if !viol.isEmpty then cs := { cs with specOk := false }
     -- coverage of the boundary situations
@@ -156,6 +161,9 @@ def doEvent (d : D) (toks : List String) (lineNo : Nat) : IO D := do
       if e.pushClk && oi.pushValid then
         cov := cov.bump "accepted"
         if (q'.acc) % c.M == 0 then cov := cov.bump "put_pointer_wraps"
+        if cs.dual then
+          if (q'.acc) % c.M ≥ 256 then cov := cov.bump "accepts_with_put_pointer_ge_256"
+          if (q'.acc) % c.M ≥ 512 then cov := cov.bump "accepts_with_put_pointer_ge_512"
       if e.popClk && oi.popValid then cov := cov.bump "yielded"
       if oi.full then cov := cov.bump "events_full_flag"
       if !oi.empty then cov := cov.bump "events_nonempty_flag"
@@ -208,6 +216,34 @@ def doStreamEvent (d : D) (toks : List String) (lineNo : Nat) : IO D := do
     IO.println s!"DIFF case={cs.id} line={lineNo} what=unparsed-event"
     return { d with diffs := d.diffs + 1 }
 
+def toBits (s : String) : Gray.Bits := s.toList.map (· == '1')
+def ofBits (v : Gray.Bits) : String := String.ofList (v.map fun x => if x then '1' else '0')
+
+/-- `g <x> <enc> <dec> <rt>`: model vs implementation for both primitives, and the round trip on the implementation -/
+def doGray (d : D) (toks : List String) (lineNo : Nat) : IO D := do
+  let cs := d.cs
+  if !cs.active then return d
+  match toks with
+  | [_, x, enc, dec, rt] =>
+    let v := toBits x
+    let mut d := { d with events := d.events + 1, cov := d.cov.bump "gray_values" }
+    let mut cs := cs
+    let me := ofBits (Gray.grayEncode v)
+    let md := ofBits (Gray.grayDecode v)
+    let mr := ofBits (Gray.grayDecode (Gray.grayEncode v))
+    if cs.modelOk && (me != enc || md != dec || mr != rt || x.length != cs.w) then
+      IO.println s!"DIFF case={cs.id} line={lineNo} what=gray w={cs.w} x={x} model=[{me} {md} {mr}] impl=[{enc} {dec} {rt}]"
+      d := { d with diffs := d.diffs + 1 }
+      cs := { cs with modelOk := false }
+    if cs.specOk && rt != x then
+      IO.println s!"PROPFAIL case={cs.id} line={lineNo} kind=gray-roundtrip w={cs.w} x={x} grayEncode={enc} grayDecode_of_that={rt}"
+      d := { d with propfails := d.propfails + 1 }
+      cs := { cs with specOk := false }
+    return { d with cs := cs }
+  | _ =>
+    IO.println s!"DIFF case={cs.id} line={lineNo} what=unparsed-event"
+    return { d with diffs := d.diffs + 1 }
+
 partial def loop (h : IO.FS.Stream) (d : D) (lineNo : Nat) : IO D := do
   let line ← h.getLine
   if line.isEmpty then return d
@@ -218,6 +254,7 @@ partial def loop (h : IO.FS.Stream) (d : D) (lineNo : Nat) : IO D := do
   | "case" :: _ => loop h (← startCase d toks lineNo) (lineNo + 1)
   | "t" :: _ => loop h (← doEvent d toks lineNo) (lineNo + 1)
   | "s" :: _ => loop h (← doStreamEvent d toks lineNo) (lineNo + 1)
+  | "g" :: _ => loop h (← doGray d toks lineNo) (lineNo + 1)
   | "abort" :: rest =>
     IO.println s!"DIFF case={d.cs.id} line={lineNo} what=harness-abort msg=[{" ".intercalate rest}]"
     loop h { d with diffs := d.diffs + 1 } (lineNo + 1)
